@@ -365,9 +365,11 @@ def known_finding_for(prop, role):
 
 def write_replay(prop, payload):
     os.makedirs(os.path.join(VERIF, "replays"), exist_ok=True)
+    if os.environ.get("VERIF_EVIDENCE_DIR"):
+        os.makedirs(os.environ["VERIF_EVIDENCE_DIR"], exist_ok=True)
     blob = json.dumps(payload, sort_keys=True, indent=1)
     dig = hashlib.sha256(blob.encode()).hexdigest()[:10]
-    p = os.path.join(VERIF, "replays", f"{prop}-{dig}.json")
+    p = os.path.join(os.environ.get("VERIF_EVIDENCE_DIR") or os.path.join(VERIF, "replays"), f"{prop}-{dig}.json")
     open(p, "w").write(blob)
     return p
 
@@ -429,8 +431,9 @@ class Evidence:
             "wall_s": round(time.time() - self.t0, 2),
             "violations": self.violations,
         }
-        os.makedirs(os.path.join(VERIF, "evidence"), exist_ok=True)
-        p = os.path.join(VERIF, "evidence", f"{self.prop}.json")
+        evdir = os.environ.get("VERIF_EVIDENCE_DIR") or os.path.join(VERIF, "evidence")
+        os.makedirs(evdir, exist_ok=True)
+        p = os.path.join(evdir, f"{self.prop}.json")
         tmp = p + ".tmp"
         json.dump(ev, open(tmp, "w"), indent=1, default=str)
         os.replace(tmp, p)
